@@ -180,6 +180,13 @@ example : Expr.print
 example : Printable (.binary .OR (.varRef "my field".toList .Unknown)
     (.binary .LT (.varRef "select".toList .Unknown) (.string "it's".toList))) := by decide
 
+-- all sign cases of integers, an unsigned literal, booleans, a regex operand
+example : Printable (.binary .OR
+    (.binary .AND (.binary .GT (.varRef ['a'] .Unknown) (.integer (-9223372036854775808)))
+      (.binary .EQREGEX (.varRef "host".toList .Unknown) (.regex "^a/b\\.c$".toList)))
+    (.binary .NEQ (.paren (.binary .ADD (.unsigned 18446744073709551615) (.integer (-7)))) (.boolean true))) := by
+  decide
+
 -- the excluded region: the tree of the known finding is not printable
 example : ¬ Printable (.binary .DIV (.varRef ['b'] .Unknown) (.binary .MUL (.integer (-1)) (.varRef ['a'] .Unknown))) := by
   decide
